@@ -8,6 +8,7 @@ import (
 	"hash"
 	"strings"
 	"testing"
+	"unicode"
 
 	xmd4 "golang.org/x/crypto/md4"
 	"pgregory.net/rapid"
@@ -795,6 +796,79 @@ func TestDCC2(t *testing.T) {
 		r := rapid.IntRange(1, 64).Draw(t, "rounds")
 		return pwCase{Password: genPassword(t), User: genUser(t), Rounds: r}
 	}, checkDCC2, func(c pwCase) bool { return c.Rounds > 1 })
+}
+
+// ---- DCC and DCC2 fold the user name the same way ---------------------------------------------------------
+//
+// DCC = MD4(NT || UTF16LE(lower(user))) and DCC2 = PBKDF2(DCC, UTF16LE(lower(user)), ...): one function `lower` in
+// both. For user names outside the case-safe alphabet of the sub-checks above (letters whose case mapping changes
+// the UTF-16 length or that lie outside the BMP, where nothing offline says what Windows does) no reference
+// value is demanded; what is demanded is that the two agree on which spellings are the same user: for a name u
+// and a spelling v of it in another case, DCC(u) = DCC(v) exactly when DCC2(u) = DCC2(v), through every entry
+// point. (A DCC2 that lower-cases UTF-16 units while DCC lower-cases code points fails for Deseret or Adlam
+// capitals; one that lower-cases ASCII only fails for "Élodie".)
+
+type foldCase struct {
+	Password string `json:"password"`
+	User     string `json:"user"`
+	Other    string `json:"other_spelling"`
+}
+
+var foldRunes = []rune("aAzZéÉàÀñÑöÖßẞſKkİiıIÅåΩωΣσςЖжДдǅǆǄ" + "\u212a\u2126\u212b" + "\U00010400\U00010428\U000104B0\U000104D8\U0001E900\U0001E922\U00010C80\U00010CC0" + "0 _-.$")
+
+func checkFold(c foldCase) []vf.Finding {
+	ntH := refcrypto.NT(c.Password)
+	hashOf := func(line string) string { return line[strings.LastIndexByte(line, '#')+1:] }
+	d1u, d1v := dcc.DCCHashFromNTHash(ntH, c.User), dcc.DCCHashFromNTHash(ntH, c.Other)
+	same1 := d1u == d1v
+	var fs []vf.Finding
+	for name, f := range map[string]func(user string) string{
+		"dcc2.DCC2Hash":             func(u string) string { return hashOf(dcc2.DCC2Hash(u, c.Password, 2)) },
+		"dcc2.DCC2HashWithPassword": func(u string) string { return hashOf(dcc2.DCC2HashWithPassword(u, c.Password, 2)) },
+		"dcc2.DCC2HashWithNTHash":   func(u string) string { return hashOf(dcc2.DCC2HashWithNTHash(u, ntH, 2)) },
+	} {
+		if same2 := f(c.User) == f(c.Other); same2 != same1 {
+			fs = append(fs, vf.F(name, "dcc-and-dcc2-fold-user-names-differently", "users %q and %q (%+q / %+q): same DCC %v, same DCC2 %v", c.User, c.Other, c.User, c.Other, same1, same2))
+		}
+	}
+	return fs
+}
+
+func TestDCCFoldAgreement(t *testing.T) {
+	s := vf.Begin(t, P, "dcc-dcc2-same-user-folding")
+	vf.Rapid(s, vf.N(1500, 20000), func(t *rapid.T) foldCase {
+		rs := rapid.SliceOfN(rapid.SampledFrom(foldRunes), 1, 8).Draw(t, "user")
+		u := string(rs)
+		var v string
+		switch rapid.IntRange(0, 3).Draw(t, "spelling") {
+		case 0:
+			v = strings.ToUpper(u)
+		case 1:
+			v = strings.ToLower(u)
+		case 2:
+			// one letter in its other simple case
+			o := append([]rune{}, rs...)
+			i := rapid.IntRange(0, len(o)-1).Draw(t, "at")
+			if unicode.IsUpper(o[i]) {
+				o[i] = unicode.ToLower(o[i])
+			} else {
+				o[i] = unicode.ToUpper(o[i])
+			}
+			v = string(o)
+		default:
+			// another name altogether: the two must differ in both
+			v = u + "x"
+		}
+		return foldCase{Password: genPassword(t), User: u, Other: v}
+	}, func(c foldCase) []vf.Finding {
+		for _, r := range c.User {
+			if r > 0xFFFF {
+				s.Class("user-with-letters-outside-the-bmp")
+				break
+			}
+		}
+		return checkFold(c)
+	}, func(c foldCase) bool { return c.User != c.Other })
 }
 
 // the iteration count Windows actually uses, plus its neighbours
